@@ -21,7 +21,8 @@ theorem orBit_testBit (bv : List Nat) (r idx b : Nat) (hidx : idx < bv.length) :
   unfold orBit
   by_cases h : r / 8 = idx
   · subst h
-    simp [List.getD_eq_getElem?_getD, List.getElem?_set, hidx, Nat.testBit_or, testBit_one_shiftLeft]
+    have hb := testBit_one_shiftLeft (r % 8) b
+    simp [List.getD_eq_getElem?_getD, hidx, Nat.testBit_or, hb, -Nat.testBit_shiftLeft]
   · have h' : ¬ idx = r / 8 := fun e => h e.symm
     simp [List.getD_eq_getElem?_getD, List.getElem?_set, h, h']
 
@@ -106,7 +107,7 @@ theorem C17_payload (n : Nat) (R : List Nat) (tail : List Nat) (hn : n < 65536)
     ∃ bs, toBytes n R = some bs ∧ bs.length = lenInBytes n ∧ parse (bs ++ tail) = some (n, R) := by
   have hall : R.all (fun r => r / 8 < n / 8 + 1) = true := by
     rw [List.all_eq_true]; intro r hrm; have := hr r hrm; simp; omega
-  refine ⟨_, by simp [toBytes, hall], ?_, ?_⟩
+  refine ⟨[n / 256 % 256, n % 256] ++ (bitvector (n / 8 + 1) R).reverse, by simp [toBytes, hall], ?_, ?_⟩
   · simp [bitvector_length, lenInBytes]; omega
   · have hcount : n / 256 % 256 * 256 + n % 256 = n := by omega
     simp only [List.cons_append, List.nil_append, parse, hcount]
@@ -127,6 +128,22 @@ example : toBytes 10 [0, 3, 9] = some [0, 10, 2, 9] ∧ parse ([0, 10, 2, 9] ++ 
 
 /-! ## the vector handed to the verifier -/
 
+theorem zip_eq_zip_iff {α M : Type} (r : List α) (s h : List M) (hl : h.length = r.length)
+    (hs : r.length ≤ s.length) : r.zip s = r.zip h ↔ s.take r.length = h := by
+  induction r generalizing s h with
+  | nil =>
+    have : h = [] := List.length_eq_zero_iff.mp (by simpa using hl)
+    simp [this]
+  | cons a r ih =>
+    cases s with
+    | nil => simp at hs
+    | cons b s' =>
+      cases h with
+      | nil => simp at hl
+      | cons c h' =>
+        simp only [List.zip_cons_cons, List.cons.injEq, Prod.mk.injEq, true_and, List.length_cons, List.take_succ_cons]
+        rw [ih s' h' (by simpa using hl) (by simpa using hs)]
+
 /-- **C17 (binding of the handed messages), model as written.** An untouched proof verifies exactly when the first
     `|revealed|` messages of the vector are the disclosed ones; whatever follows them is ignored. -/
 theorem verifyOutcome_iff {M : Type} [DecidableEq M] (n : Nat) (revealed : List Nat) (honest supplied : List M)
@@ -138,16 +155,62 @@ theorem verifyOutcome_iff {M : Type} [DecidableEq M] (n : Nat) (revealed : List 
     rw [List.any_eq_false]; intro r hrm; have := hr r hrm; simp; omega
   by_cases hl : supplied.length < revealed.length
   · simp [hl]; omega
-  · simp only [hl, if_false, hany, Bool.true_and, beq_iff_eq]
-    constructor
-    · intro h
-      refine ⟨by omega, ?_⟩
-      have := congrArg (fun l => l.map Prod.snd) h
-      simp only [List.map_snd_zip] at this
-      have h1 : (revealed.zip supplied).map Prod.snd = supplied.take revealed.length := by
-        rw [List.map_snd_zip_of_le]  -- placeholder, replaced below
-        omega
-      sorry
-    · sorry
+  · have hle : revealed.length ≤ supplied.length := by omega
+    simp only [hl, if_false, hany, Bool.true_and, beq_iff_eq, Bool.false_eq_true]
+    rw [zip_eq_zip_iff revealed supplied honest hlen hle]
+    exact ⟨fun h => ⟨hle, h⟩, fun h => h.2⟩
+
+/-- the contract accepts exactly the disclosed vector; the model accepts every extension of it (C17-F1) -/
+theorem spec_implies_model {M : Type} [DecidableEq M] (n : Nat) (revealed : List Nat) (honest supplied : List M)
+    (hlen : honest.length = revealed.length) (hr : ∀ r ∈ revealed, r < n)
+    (h : specOutcome honest supplied true true true = true) :
+    verifyOutcome n revealed honest supplied true true true = true := by
+  have hs : supplied = honest := by simpa [specOutcome] using h
+  rw [verifyOutcome_iff n revealed honest supplied hlen hr, hs]
+  exact ⟨by omega, by rw [← hlen]; exact List.take_length⟩
+
+/-- **C17-F1, the open finding, as a theorem about the code as written**: a supplemented vector is accepted. -/
+theorem C17_F1_supplemented_accepted {M : Type} [DecidableEq M] (n : Nat) (revealed : List Nat) (honest extra : List M)
+    (hlen : honest.length = revealed.length) (hr : ∀ r ∈ revealed, r < n) :
+    verifyOutcome n revealed honest (honest ++ extra) true true true = true := by
+  rw [verifyOutcome_iff n revealed honest _ hlen hr]
+  exact ⟨by simp; omega, by rw [← hlen]; simp⟩
+
+/-- without the supplement the model and the contract agree: a vector of exactly the disclosed length is accepted iff it
+    is the disclosed vector (changed, reordered, shifted vectors are refused) -/
+theorem C17_exact_length {M : Type} [DecidableEq M] (n : Nat) (revealed : List Nat) (honest supplied : List M)
+    (hlen : honest.length = revealed.length) (hr : ∀ r ∈ revealed, r < n) (hsl : supplied.length = revealed.length) :
+    verifyOutcome n revealed honest supplied true true true = specOutcome honest supplied true true true := by
+  have hiff := verifyOutcome_iff n revealed honest supplied hlen hr
+  have htake : supplied.take revealed.length = supplied := by rw [← hsl]; exact List.take_length
+  rw [htake] at hiff
+  cases hv : verifyOutcome n revealed honest supplied true true true with
+  | true => have := hiff.mp hv; simp [specOutcome, this.2]
+  | false =>
+    cases hsp : specOutcome honest supplied true true true with
+    | false => rfl
+    | true =>
+      have hs : supplied = honest := by simpa [specOutcome] using hsp
+      have := hiff.mpr ⟨by omega, hs⟩
+      rw [hv] at this; cases this
+
+/-- a dropped message (a shorter vector) is always refused -/
+theorem C17_dropped_refused {M : Type} [DecidableEq M] (n : Nat) (revealed : List Nat) (honest supplied : List M)
+    (b1 b2 b3 : Bool) (h : supplied.length < revealed.length) :
+    verifyOutcome n revealed honest supplied b1 b2 b3 = false := by
+  simp [verifyOutcome, boundPairs, h]
+
+/-- another nonce, another key or altered proof bytes are refused (ideal proof system: this is the assumption, named) -/
+theorem C17_context_bound {M : Type} [DecidableEq M] (n : Nat) (revealed : List Nat) (honest supplied : List M)
+    (b1 b2 b3 : Bool) (h : (b1 && b2 && b3) = false) :
+    verifyOutcome n revealed honest supplied b1 b2 b3 = false := by
+  simp [verifyOutcome, h]
+
+/-- a disclosed index beyond the message count is refused (after the repair of C17-F3) -/
+theorem C17_index_in_range {M : Type} [DecidableEq M] (n : Nat) (revealed : List Nat) (honest supplied : List M)
+    (b1 b2 b3 : Bool) (r : Nat) (hr : r ∈ revealed) (hn : n ≤ r) :
+    verifyOutcome n revealed honest supplied b1 b2 b3 = false := by
+  have : revealed.any (fun r => decide (n ≤ r)) = true := List.any_eq_true.mpr ⟨r, hr, by simpa using hn⟩
+  simp [verifyOutcome, boundPairs, this]
 
 end Bbs
